@@ -16,15 +16,15 @@ type verifC12Edge struct {
 	c, e expvar.Int
 }
 
-func (r *verifC12Edge) Collect(m edge.Message) error        { r.msgs = append(r.msgs, m); return nil }
-func (r *verifC12Edge) Emit() (edge.Message, bool)          { return nil, false }
-func (r *verifC12Edge) Close() error                        { return nil }
-func (r *verifC12Edge) Abort()                              {}
-func (r *verifC12Edge) Type() pipeline.EdgeType             { return pipeline.StreamEdge }
-func (r *verifC12Edge) Collected() int64                    { return int64(len(r.msgs)) }
-func (r *verifC12Edge) Emitted() int64                      { return 0 }
-func (r *verifC12Edge) CollectedVar() expvar.IntVar         { return &r.c }
-func (r *verifC12Edge) EmittedVar() expvar.IntVar           { return &r.e }
+func (r *verifC12Edge) Collect(m edge.Message) error          { r.msgs = append(r.msgs, m); return nil }
+func (r *verifC12Edge) Emit() (edge.Message, bool)            { return nil, false }
+func (r *verifC12Edge) Close() error                          { return nil }
+func (r *verifC12Edge) Abort()                                {}
+func (r *verifC12Edge) Type() pipeline.EdgeType               { return pipeline.StreamEdge }
+func (r *verifC12Edge) Collected() int64                      { return int64(len(r.msgs)) }
+func (r *verifC12Edge) Emitted() int64                        { return 0 }
+func (r *verifC12Edge) CollectedVar() expvar.IntVar           { return &r.c }
+func (r *verifC12Edge) EmittedVar() expvar.IntVar             { return &r.e }
 func (r *verifC12Edge) ReadGroupStats(func(*edge.GroupStats)) {}
 
 type verifC12Timer struct{}
